@@ -187,6 +187,77 @@ pub fn cases(tier: Tier) -> Vec<Expr> {
             v.push(call(f, arg(hi + 1)));
         }
     }
+    if tier == Tier::Thorough {
+        // compositions of two unary functions over every value
+        let unary = ["string", "number", "boolean", "not", "floor", "ceiling", "round", "string-length", "normalize-space"];
+        for f in unary {
+            for g in unary {
+                for a in &all {
+                    v.push(call(f, vec![call(g, vec![a.clone()])]));
+                }
+            }
+        }
+        // translate and three-argument concat over the full string pool in two of the three places
+        for a in &strs {
+            for b in &strs {
+                for c in &strs_small {
+                    v.push(call("translate", vec![a.clone(), b.clone(), c.clone()]));
+                    v.push(call("translate", vec![a.clone(), c.clone(), b.clone()]));
+                    v.push(call("concat", vec![a.clone(), c.clone(), b.clone()]));
+                }
+            }
+        }
+        // substring with every number as length too
+        for a in &strs_small {
+            for st in &nums {
+                for l in &nums {
+                    v.push(call("substring", vec![a.clone(), st.clone(), l.clone()]));
+                }
+            }
+        }
+        // two operators: precedence, associativity and the propagation of NaN / infinities / signed zeros
+        let ops = [Op::Add, Op::Sub, Op::Mul, Op::Div, Op::Mod];
+        for o1 in ops {
+            for o2 in ops {
+                for a in &nums_small {
+                    for b in &nums_small {
+                        for c in &nums_small {
+                            v.push(bin(o2, bin(o1, a.clone(), b.clone()), c.clone()));
+                            v.push(bin(o1, a.clone(), bin(o2, b.clone(), c.clone())));
+                        }
+                    }
+                }
+            }
+        }
+        // comparisons of comparisons, and / or over every pair
+        for o1 in [Op::Eq, Op::Ne, Op::Lt, Op::Le, Op::Gt, Op::Ge] {
+            for o2 in [Op::Eq, Op::Lt, Op::Ge] {
+                for a in &nums_small {
+                    for b in &nums_small {
+                        for c in nums_small.iter().take(8).chain(bools.iter()) {
+                            v.push(bin(o1, bin(o2, a.clone(), b.clone()), c.clone()));
+                        }
+                    }
+                }
+            }
+        }
+        for op in [Op::And, Op::Or] {
+            for a in &all {
+                for b in &all {
+                    v.push(bin(op, a.clone(), b.clone()));
+                }
+            }
+        }
+        // string functions with number / boolean arguments in every place
+        for f in ["starts-with", "contains", "substring-before", "substring-after", "concat"] {
+            for a in nums.iter().chain(bools.iter()) {
+                for b in nums_small.iter().chain(bools.iter()).chain(strs_small.iter()) {
+                    v.push(call(f, vec![a.clone(), b.clone()]));
+                    v.push(call(f, vec![b.clone(), a.clone()]));
+                }
+            }
+        }
+    }
     // de-duplicate by spelling
     let mut seen = std::collections::HashSet::new();
     v.retain(|e| seen.insert(canonical(e)));
@@ -288,6 +359,17 @@ impl Space for Scalars {
                     Outcome::Val(_) if canonical(&positive_zero(e)) != s && run_query(&self.fx.doc, &canonical(&positive_zero(e)), &vec![], Some((&self.fx.map, &self.fx.tree))) == want => {
                         "negative-zero-as-string".to_string()
                     }
+                    // ... or the reference computes exactly this value once it writes negative zero as "-0" too
+                    // (string-length(ceiling(-0.5)) = 2, contains(string(-0), '-'), ...)
+                    Outcome::Val(_) if {
+                        NEG_ZERO_AS_MINUS_ZERO.with(|c| c.set(true));
+                        let alt = ref_outcome(&self.fx.tree, e, &vec![]);
+                        NEG_ZERO_AS_MINUS_ZERO.with(|c| c.set(false));
+                        alt == got
+                    } =>
+                    {
+                        "negative-zero-as-string".to_string()
+                    }
                     _ => "wrong-value".to_string(),
                 },
             };
@@ -316,7 +398,7 @@ impl Check for C09C {
         Meta {
             rule: "full products of the core functions and operators with argument tuples from a string pool (empty, white space, ASCII, 2-/3-/4-byte characters, numeric-looking in every lexical form incl. padded, signed, exponent, hex, Infinity, NaN) and a number pool (+-0, halves, integers, 2^53, 1e21, 1e-7, 0.1+0.2, NaN, +-Infinity, spelled as literals or constant expressions) and booleans: every unary function over every value; every binary string function over all string pairs; concat/translate over all triples of a sub-pool; substring over string x start x length; the five arithmetic operators over all number pairs plus string/boolean coercion; the six comparison operators over all value pairs of every type combination; and/or; sum/count/number/string/comparisons over five node-sets with numeric-looking text; every function one argument below and above its arity. Each expression is rendered from its AST, evaluated by xml_xpath::query and by the reference evaluator (mc/src/model/xpath.rs); values compare exactly (numbers bitwise, NaN canonical). Non-trivial = the implementation returned a value.",
             bounds_quick: "28 strings, 33 numbers, 2 booleans; comparison pool 30 values; substring over 7 strings x 16 x 16",
-            bounds_thorough: "as quick, plus comparisons over all 63 values and substring over 28 strings x 33 starts x 16 lengths",
+            bounds_thorough: "as quick, plus comparisons and and/or over all pairs of the 63 values, substring over 28 strings x 33 starts x 16 lengths and 7 strings x 33 x 33, every composition of two unary functions over every value, translate / concat over 28 x 28 x 7 strings, every expression with two arithmetic operators (both groupings) over 16^3 numbers, comparisons of comparisons, string functions with number / boolean arguments",
             assumptions: &["trusts the reference core library (DESIGN.md Appendix C)"],
             unbounded_total: false,
         }
